@@ -12,16 +12,18 @@ PROPERTIES = {
         "text": "Coq model of the scanner subset and of every parseFrom (one-token lookahead, whitespace-mode switches, "
                 "multi-line strings, numeric helpers); theorems (Properties/C04.v): parse_print_partial = parse (print ds) = Ok "
                 "(elaborate ds) for every well-formed file over all 16 dispatching kinds (top-level SG_ excepted) and unknown lines "
-                "in the plain layout (any count and order; positions included; number literals with fraction and exponent; "
+                "with every line ended by the same run of spaces/CRs + LF (LF, CRLF, trailing blanks) and any blank lines before the "
+                "definitions and at the end (any count and order; positions included; number literals with fraction and exponent; "
                 "strings with escaped quotes and backslashes; CM_ texts over several lines; BA_DEF_DEF_/BA_ typed by the first "
                 "earlier BA_DEF_), unknown_one (an unknown line yields one "
                 "UnknownDef and does not change how the following lines are parsed), and refutations of the pre-fix discardLine (F8) "
                 "and BS_ (F9). On every run a grammar-based generator (all 16 definition kinds + unknown lines, layout variants) "
                 "produces texts with the definitions they denote; implementation, extracted model and expectation are compared "
                 "three ways; P = implementation equals expectation.",
-        "note": _NOTE + " The round-trip theorem is proved for the plain layout only (single spaces, LF; statement and list of "
-                        "what is not covered - top-level SG_, UTF-8 in strings, line ends in strings other than CM_ texts, the other "
-                        "layouts - in Properties/C04.v); those are covered by the three-way differential run, which samples the grammar.",
+        "note": _NOTE + " The round-trip theorem is proved for single spaces between tokens, one uniform line-end run and blank "
+                        "lines between definitions (statement and list of what is not covered - top-level SG_, UTF-8 in strings, line "
+                        "ends in strings other than CM_ texts, indentation, extra spaces, empty gaps, line ends inside definitions - "
+                        "in Properties/C04.v); those are covered by the three-way differential run, which samples the grammar.",
         "technique": "Coq proof about a Gallina model + differential correspondence of model, code and generator-side denotation",
         "design_ref": "5.4",
     },
@@ -29,7 +31,7 @@ PROPERTIES = {
         "text": "Coq theorem parse_total (Properties/C12.v): for EVERY byte list and every non-ASCII classification the model "
                 "parser with fuel length+4 returns Ok or Err with a position inside the input, never Panic (no index operation "
                 "fails) and never OutOfFuel (every loop iteration consumes input); determinism is functional-ness; "
-                "error_local_partial: after a well-formed file prefix (all kinds of C04's round trip, plain layout) followed by any "
+                "error_local_partial: after a well-formed file prefix (all kinds and layouts of C04's round trip) followed by any "
                 "bytes that still begin with a keyword, an error is positioned inside those bytes and Defs() extends the "
                 "definitions of the prefix. Locality on the implementation: generated files (all kinds, all layouts) x definition "
                 "index x corruption operators (error not before the corrupted definition, Defs() = the preceding definitions), "
